@@ -1152,7 +1152,7 @@ def source_tie(chk):
             chk.broken.append({"what": "source tie einsum_equations broken: the ast rewrite does not cover the current source of an einsum-backend routine", "detail": str(e)})
         chk.checker_cmds.append("coqc on generated build/gen/C02_*/EqTie.v: source einsum equations = model equations up to renaming (Proofs/TenalgProofsEq.v)")
         chk.cov["source_derived_lemmas"]["einsum_equations"] = est
-        # third tie: the bodies of the core backend's multi_mode_dot, kronecker and unfolding_dot_khatri_rao, translated from the current
+        # third tie: the bodies of the core backend's mode_dot, multi_mode_dot, kronecker and unfolding_dot_khatri_rao, translated from the current
         # source into Gallina (harness/props/C02_coretie.py), are proved equal to the model routines for all inputs
         from harness.props import C02_coretie
         for _, routine, _, _ in C02_coretie.ROUTINES:
@@ -1173,7 +1173,17 @@ def source_tie(chk):
                                            "of Model/Tenalg.v that the index-formula theorems are about", "detail": det})
             elif st == "skipped":
                 chk.notes.append(f"source tie {thm} skipped: {det}")
-        chk.checker_cmds.append("coqc on generated build/gen/C02_*/Core_*.v: core multi_mode_dot / kronecker / unfolding_dot_khatri_rao source = model routine, all inputs (tensorly source -> Gallina)")
+        # routing: under each tenalg backend every routine of the property is routed to the function of that name in the backend's
+        # own file of the checked tree (the files the ties parse), and the callee names inside the translated core functions are
+        # bound to the routines the translator reads them as
+        try:
+            rp = C02_coretie.routing(C.REPO)
+        except Exception as e:          # fail closed
+            rp = [f"routing check raised {type(e).__name__}: {e}"]
+        chk.cov["source_derived_lemmas"]["routing"] = "checked" if not rp else "broken"
+        if rp:
+            chk.broken.append({"what": "source tie routing broken: a routine of the property is not routed to the source the ties translate", "detail": rp[:6]})
+        chk.checker_cmds.append("coqc on generated build/gen/C02_*/Core_*.v: core mode_dot / multi_mode_dot / kronecker / unfolding_dot_khatri_rao source = model routine, all inputs (tensorly source -> Gallina)")
     finally:
         shutil.rmtree(d, ignore_errors=True)
 
